@@ -1947,6 +1947,18 @@ class ReferenceManager:
                 if spec:
                     self._manager.del_spec(spec)
 
+    def del_space_refs(self, impl):
+        """Release the references of a space being deleted"""
+        for ref in impl.own_refs.values():
+            refs = self._valid_to_refs.get(id(ref.interface))
+            if refs and ref in refs:    # derived refs are not tracked
+                refs.remove(ref)
+                if not refs:
+                    del self._valid_to_refs[id(ref.interface)]
+                    spec = self.get_spec(ref.interface)
+                    if spec:
+                        self._manager.del_spec(spec)
+
     def change_ref(self, impl, name, value, refmode=None):
 
         refdict = impl.own_refs
